@@ -117,6 +117,7 @@ func VerifHarness_server_handshake() {
 		verifReach("failed")
 		verifAssert("C12.server.notCompleteOnError", !c.handshakeComplete())
 		verifAssert("C10.server.failedHandshakeCachesNothing", vg.puts == 0)
+		verifAssert("C07.server.rejectedHandshakeLeavesNoSession", vg.puts == 0)
 		return
 	}
 	verifAssert("C12.server.statusSet", c.handshakeComplete())
